@@ -147,7 +147,7 @@ def run_corpus(ctx):
 def search(ctx):
     """spec (generator tree) vs implementation on a fresh targeted stream"""
     res = fw.run_cases(case, [(ctx.seed + 7919, None)] * ctx.scale(200, 1500))
-    res += fw.run_cases(case, [(ctx.seed + 7920, dict(p_kwlike=0.4, extra_kinds=['enum', 'enum', 'fwd']))] * ctx.scale(200, 1500))
+    res += fw.run_cases(case, [(ctx.seed + 7920, dict(p_kwlike=0.4, p_fwd_twin=0.6, extra_kinds=['enum', 'enum', 'fwd', 'fwd', 'fwd']))] * ctx.scale(200, 1500))
     for r in res:
         if "crash" not in r and r["impl"] != r["want"]:
             return dict(what="parse tree differs from the tree the text was rendered from", input=r["text"],
@@ -172,7 +172,7 @@ def main(ctx):
     run_stream(ctx, ctx.scale(240, 6000))
     run_stream(ctx, ctx.scale(40, 800), dict(max_depth=ctx.scale(6, 30), max_decls=2, max_members=2), tag="deep")
     # identifiers that begin with / contain keywords of the dialect (`enum classification`, `structure_type`, `constant`)
-    run_stream(ctx, ctx.scale(120, 2500), dict(p_kwlike=0.4, extra_kinds=['enum', 'enum', 'fwd']), tag="keyword-like names")
+    run_stream(ctx, ctx.scale(120, 2500), dict(p_kwlike=0.4, p_fwd_twin=0.6, extra_kinds=['enum', 'enum', 'fwd', 'fwd', 'fwd']), tag="keyword-like names")
     for e in ctx.known:
         still = replay_finding(ctx, e)
         if e.get("kind") == "fixed":
